@@ -1,5 +1,6 @@
 """C01 — safe evaluator: confined to its allow-list, total, resource-bounded."""
 import ast
+import random
 import json
 import multiprocessing
 import os
@@ -494,7 +495,65 @@ class C01(Check):
                 if not ok:
                     break
         self.extra_cov["dysfunction_probes"] = n_dys
-        # 3. resource stream, each in a child process with a hard limit
+        # 4. the engine as the BioAgent uses it (operon_ai/core/agent.py): an Executor asked to "calculate <expr>" hands the
+        #    text to digest_glucose.  Whatever the text, express() must return (never raise), registered-tool and forbidden
+        #    constructs must not get further than through the engine, and what comes back is what the engine says.
+        import signal
+        import threading
+        from operon_ai.core.agent import BioAgent
+        from operon_ai.core.types import Signal
+        from operon_ai.state.metabolism import ATP_Store
+        import contextlib
+        import io
+        rng = random.Random(f"C01:agent:{self.seed}")
+        exprs = [c["expr"] for c in self.gen_cases(rng, 80 if self.tier == "quick" else 600)]
+        exprs += ["2 + 2", "1/0", "__import__('os').getcwd()", "(1).real", "[x for x in [1]]", "f'{1}'", "1 +", "", "sqrt(16) * 2",
+                  "factorial(2000)", "'a' * 3", "not 1", "9 ** 0.5", "lambda: 1", "pi(1)", "2 ** 10 ** 2"]
+        n_agent = 0
+        for e in exprs:
+            if len(e) > 400 or self._slow_signature(e) == "C01/unbounded-primitive":
+                continue            # resource cases run in the child-process stream above
+            content = f"please calculate {e}"
+            ag_raised = None
+            out = None
+
+            def on_alarm(signum, frame):
+                raise HarnessAlarm()
+            use_alarm = threading.current_thread() is threading.main_thread()
+            if use_alarm:
+                old = signal.signal(signal.SIGALRM, on_alarm)
+                signal.setitimer(signal.ITIMER_REAL, 6.0)
+            try:
+                with contextlib.redirect_stdout(io.StringIO()):
+                    agent = BioAgent("exec", "Executor", ATP_Store(budget=1000, silent=True))
+                    out = agent.express(Signal(content=content))
+            except BaseException as ex:  # noqa
+                ag_raised = ex
+            finally:
+                if use_alarm:
+                    signal.setitimer(signal.ITIMER_REAL, 0)
+                    signal.signal(signal.SIGALRM, old)
+            n_agent += 1
+            case = {"agent_probe": True, "content": content, "expr": e, "pathway": None, "tools": [], "allowed": None, "silent": True}
+            if isinstance(ag_raised, HarnessAlarm):
+                self.violations.append(Violation("C01/hang", f"BioAgent.express({content!r}) had not returned after 6 s", case=case))
+                break
+            if ag_raised is not None:
+                self.violations.append(Violation("C01/raises", f"BioAgent.express({content!r}) raised "
+                                                 f"{type(ag_raised).__name__}: {str(ag_raised)[:80]}", case=case))
+                break
+            if getattr(out, "action_type", None) == "EXECUTE" and str(out.payload).startswith("Calculated: "):
+                # what the agent reports is what a fresh engine says about the extracted text
+                import re as _re
+                mm = _re.search(r"\bcalculate\b(.*)$", content, flags=_re.IGNORECASE)
+                with contextlib.redirect_stdout(io.StringIO()):
+                    ref = Mitochondria(silent=True).digest_glucose(mm.group(1).strip())
+                if str(out.payload) != f"Calculated: {ref}":
+                    self.violations.append(Violation("C01/agent-differs-from-engine",
+                                                     f"BioAgent reports {str(out.payload)[:80]!r}, the engine says {str(ref)[:80]!r}", case=case))
+                    break
+        self.extra_cov["agent_probes"] = n_agent
+        # 5. resource stream, each in a child process with a hard limit
         stream = [("9**9**9", None), ("2**100000", None), ("factorial(3000)", None), ("'ab' * 10**9", None),
                   ("1" + "+1" * 2000, None), ("-" * 5000 + "1", "math"), ("(" * 4000 + "1" + ")" * 4000, None),
                   ("not " * 2400 + "1", "logic"), ("[" * 5000 + "]" * 5000, None), ("x" * 100000, None),
